@@ -311,7 +311,11 @@ func (f *frame) pureCall(in *ssa.Call) {
 				bv := x.fresh("q")
 				bvs = append(bvs, bv)
 				bargs = append(bargs, dualOf(Val{T: bv}))
-				decl = append(decl, fmt.Sprintf("(%s Int)", bv))
+				qs := "Int"
+				if x.X.bvMode && i < len(cl.Fn.Params) {
+					qs = x.X.sortOf(cl.Fn.Params[i].Type()) // bit-vector mode: the bound variable has its Go type's width
+				}
+				decl = append(decl, fmt.Sprintf("(%s %s)", bv, qs))
 			}
 			x.qFacts = append(x.qFacts, nil)
 			body := x.evalPure(cl.Fn, bargs, cl.Bindings, [2]memView{f.mem[0], f.mem[1]}, f.depth+1)
@@ -327,6 +331,11 @@ func (f *frame) pureCall(in *ssa.Call) {
 					ann := ""
 					for _, p := range pats {
 						ann += " :pattern (" + p + ")"
+					}
+					if len(bvs) == 1 && !x.X.bvMode && q == "forall" {
+						// alternative trigger: every index term the code itself uses
+						x.X.declare("idxmark", "(declare-fun idxmark (Int) Bool)")
+						ann += " :pattern ((idxmark " + bvs[0] + "))"
 					}
 					bt = "(! " + bt + ann + ")"
 				}
